@@ -215,3 +215,118 @@ def _(u):
     ptr = u.ctx.inputs["pointer_logits"][0]
     u.prove("dec.logits.own-row", d["logits"].at(r, n) == ptr(zint(r), zint(n)))
     u.canary("dec.key.instance-major", rec["k"].at(r, n, e) == d["gk"].at(r / S, n, e) + wk(zint(e), 0) * d["td"]["demand_state"].at(r, n))
+
+
+@unit("context.mtvrp.rowlocal", file=CTX, func="EnvContext.forward", props=("C14",))
+def _(u):
+    u.inline((CTX, "EnvContext._cur_node_embedding"), (CTX, "MTVRPContext._state_embedding"))
+    _ctx_unit(u, "MTVRPContext", {"vehicle_capacity": ((1,), "f"), "used_capacity_linehaul": ((1,), "f"), "used_capacity_backhaul": ((1,), "f"),
+                                  "current_time": ((1,), "f"), "current_route_length": ((1,), "f"), "open_route": ((1,), "b")}, E_extra=5)
+
+
+DYN = "rl4co/models/nn/env_embeddings/dynamic.py"
+
+
+@unit("dynamic.sdvrp.rowlocal", file=DYN, func="SDVRPDynamicEmbedding.forward", props=("C14",))
+def _(u):
+    N = u.dim("N")
+    E = u.dim("E", 1)
+    proj = linear(u, "projection", 1, 3 * E)
+    obj = u.obj(DYN, "SDVRPDynamicEmbedding", projection=proj)
+
+    def call(u, ins):
+        td = SymTD({"demand_with_depot": ins["demand_with_depot"]}, (ins["demand_with_depot"].shape[0],))
+        k, v, l = u.run(DYN, "SDVRPDynamicEmbedding.forward", td, selfobj=obj, record=False)
+        return {"glimpse_key": k, "glimpse_val": v, "logit_key": l}
+
+    rowlocal(u, "SDVRPDynamicEmbedding", lambda u, B: {"demand_with_depot": u.tensor("demand_with_depot", (B, N + 1), "f")}, call, tags=("C14",))
+
+
+@unit("am.decoder.precompute_cache.rowlocal", file=AMD, func="AttentionModelDecoder._precompute_cache", props=("C14",))
+def _(u):
+    N = u.dim("N")
+    E = u.dim("E", 1)
+    for use_gc in (True, False):
+        dec = u.obj(AMD, "AttentionModelDecoder", project_node_embeddings=linear(u, f"project_node_embeddings.{use_gc}", E, 3 * E),
+                    project_fixed_context=linear(u, f"project_fixed_context.{use_gc}", E, E), use_graph_context=use_gc)
+
+        def call(u, ins, dec=dec):
+            c = u.run(AMD, "AttentionModelDecoder._precompute_cache", ins["embeddings"], selfobj=dec, record=False)
+            out = {k: c._attrs[k] for k in ("node_embeddings", "glimpse_key", "glimpse_val", "logit_key")}
+            if isinstance(c._attrs["graph_context"], SymTensor):
+                out["graph_context"] = c._attrs["graph_context"]
+            return out
+
+        rowlocal(u, f"precompute_cache.gc{int(use_gc)}", lambda u, B: {"embeddings": u.tensor("embeddings", (B, N, E), "f")}, call, tags=("C14",))
+
+
+# ---------------------------------------------------------------------------------------------
+# Initial (instance feature) embeddings: row-local, and node j of the output is built from node j's own features
+# ---------------------------------------------------------------------------------------------
+INI = "rl4co/models/nn/env_embeddings/init.py"
+
+
+def _init_unit(u, cls, keys, linears, even=False):
+    """keys: name -> (tail(N), dtype) with N = number of customers (nodes without depot); linears: attr -> in_features."""
+    H = u.dim("H") if even else None
+    N = 2 * H if even else u.dim("N")
+    E = u.dim("E", 1)
+    obj = u.obj(INI, cls, **{a: linear(u, a, din, E, bias=True) for a, din in linears.items()})
+
+    def make_inputs(u, B):
+        return {k: u.tensor(k, (B,) + tuple(tail(N)), dt) for k, (tail, dt) in keys.items()}
+
+    def call(u, ins):
+        B = next(iter(ins.values())).shape[0]
+        return {"init_embedding": u.run(INI, f"{cls}.forward", SymTD(dict(ins), (B,)), selfobj=obj, record=False)}
+
+    rowlocal(u, cls, make_inputs, call, tags=("C14",))
+
+
+_LOCS = {"locs": (lambda N: (N + 1, 2), "f")}
+
+
+@unit("init.tsp.rowlocal", file=INI, func="TSPInitEmbedding.forward", props=("C14",))
+def _(u):
+    _init_unit(u, "TSPInitEmbedding", {"locs": (lambda N: (N, 2), "f")}, {"init_embed": 2})
+
+
+@unit("init.vrp.rowlocal", file=INI, func="VRPInitEmbedding.forward", props=("C14",))
+def _(u):
+    _init_unit(u, "VRPInitEmbedding", dict(_LOCS, demand=(lambda N: (N,), "f")), {"init_embed": 3, "init_embed_depot": 2})
+
+
+@unit("init.vrptw.rowlocal", file=INI, func="VRPTWInitEmbedding.forward", props=("C14",))
+def _(u):
+    _init_unit(u, "VRPTWInitEmbedding", dict(_LOCS, demand=(lambda N: (N,), "f"), durations=(lambda N: (N + 1,), "f"), time_windows=(lambda N: (N + 1, 2), "f")),
+               {"init_embed": 6, "init_embed_depot": 2})
+
+
+@unit("init.pctsp.rowlocal", file=INI, func="PCTSPInitEmbedding.forward", props=("C14",))
+def _(u):
+    _init_unit(u, "PCTSPInitEmbedding", dict(_LOCS, expected_prize=(lambda N: (N,), "f"), penalty=(lambda N: (N + 1,), "f")), {"init_embed": 4, "init_embed_depot": 2})
+
+
+@unit("init.op.rowlocal", file=INI, func="OPInitEmbedding.forward", props=("C14",))
+def _(u):
+    _init_unit(u, "OPInitEmbedding", dict(_LOCS, prize=(lambda N: (N + 1,), "f")), {"init_embed": 3, "init_embed_depot": 2})
+
+
+@unit("init.pdp.rowlocal", file=INI, func="PDPInitEmbedding.forward", props=("C14",))
+def _(u):
+    _init_unit(u, "PDPInitEmbedding", dict(_LOCS), {"init_embed_depot": 2, "init_embed_pick": 4, "init_embed_delivery": 2}, even=True)
+
+
+@unit("init.mtsp.rowlocal", file=INI, func="MTSPInitEmbedding.forward", props=("C14",))
+def _(u):
+    _init_unit(u, "MTSPInitEmbedding", dict(_LOCS), {"init_embed": 2, "init_embed_depot": 2})
+
+
+@unit("init.smtwtp.rowlocal", file=INI, func="SMTWTPInitEmbedding.forward", props=("C14",))
+def _(u):
+    _init_unit(u, "SMTWTPInitEmbedding", {k: (lambda N: (N,), "f") for k in ("job_due_time", "job_weight", "job_process_time")}, {"init_embed": 3})
+
+
+@unit("init.svrp.rowlocal", file=INI, func="SVRPInitEmbedding.forward", props=("C14",))
+def _(u):
+    _init_unit(u, "SVRPInitEmbedding", dict(_LOCS, skills=(lambda N: (N, 1), "f")), {"init_embed": 3, "init_embed_depot": 2})
